@@ -401,6 +401,10 @@ func c13Mutants(r *rand.Rand, base c13Case, s1 s1Raw, payload cbor.RawBytes, k s
 		m := s1
 		m.Payload = nil
 		add("payload-missing", true, func(c *c13Case) { c.enc = reencode(m) })
+		// a payload handed to Verify explicitly is the one that is verified, whatever the object embeds:
+		// a different explicit payload must not verify, the same one must
+		other := cbor.RawBytes(cborBytes("another payload than the one that was signed"))
+		add("explicit-payload-differs", true, func(c *c13Case) { c.detached = &other })
 	}
 	return out
 }
